@@ -135,6 +135,9 @@ def registryBurn (t : TokenInfo) (bank : Int) (amt : Int) : Option (TokenInfo ×
 /-- msg server UpsertTokenInfo on an EXISTING token (the owner-edit branch) -/
 def ownerEdit (t : TokenInfo) (sender : Nat) (newCap : Int) (newOwner : Nat) (newDisabled : Bool) : Option TokenInfo :=
   if t.owner ≠ sender ∨ t.ownerEditDisabled then none else
+  -- newCap < 0 stands for a message whose supply_cap is absent from the wire (a nil Int): for a capped token the
+  -- comparison with the stored cap panics and the transaction fails
+  if t.cap ≠ 0 ∧ newCap < 0 then none else
   if t.cap ≠ 0 ∧ (t.cap < newCap ∨ newCap = 0) then none else
   let t' := { t with cap := newCap, owner := newOwner, ownerEditDisabled := newDisabled }
   if capOk t' then some t' else none
